@@ -342,3 +342,11 @@ Theorem C08_leaf_is_forwarded : forall t rva,
   Leaf.L_exports_Exports_is_forwarded (Exports.t_dva t) (Exports.t_dsize t) rva = Exports.is_forwarded t rva.
 Proof. exact LeafExports.is_forwarded_agrees. Qed.
 Print Assumptions C08_leaf_is_forwarded.
+
+(* the source places the binders of the generated leaf definitions stand for (third audit, F2) *)
+From Coq Require Import List String.
+Import ListNotations.
+Theorem C08_leaf_reads_exports :
+  Leaf.L_exports_Exports_is_forwarded_args = ["self.datadir.VirtualAddress : u32"%string; "self.datadir.Size : u32"%string; "rva : u32"%string].
+Proof. exact LeafExports.leaf_reads_exports. Qed.
+Print Assumptions C08_leaf_reads_exports.
